@@ -818,12 +818,15 @@ impl<C: Config, Q: Query> Snapshot<C, Q> {
     pub async fn clean_query(
         &mut self,
         clean_edges: Vec<QueryID>,
-        new_tfc: Option<Interned<TransitiveFirewallCallees>>,
+        new_tfc: Option<(
+            Interned<TransitiveFirewallCallees>,
+            ForwardEdgeObservation<C>,
+        )>,
         timestamp: Timestamp,
     ) {
         let mut tx = self.engine().new_write_transaction();
 
-        let new_node_info = if let Some(x) = new_tfc {
+        let new_node_info = if let Some((x, new_observations)) = new_tfc {
             let mut current_node_info = self.node_info().await.unwrap();
 
             current_node_info.transitive_firewall_callees = x;
@@ -831,7 +834,7 @@ impl<C: Config, Q: Query> Snapshot<C, Q> {
                 .engine()
                 .hash(&current_node_info.transitive_firewall_callees);
 
-            Some(current_node_info)
+            Some((current_node_info, new_observations))
         } else {
             None
         };
@@ -847,12 +850,21 @@ impl<C: Config, Q: Query> Snapshot<C, Q> {
                 .await;
         }
 
-        if let Some(node_info) = new_node_info {
+        if let Some((node_info, new_observations)) = new_node_info {
             self.engine()
                 .computation_graph
                 .database
                 .node_info
                 .insert(*self.query_id(), node_info, &mut tx)
+                .await;
+
+            // the firewall set and what was observed of the callees' firewall
+            // sets are replaced together
+            self.engine()
+                .computation_graph
+                .database
+                .forward_edge_observation
+                .insert(*self.query_id(), new_observations, &mut tx)
                 .await;
         }
 
